@@ -8,7 +8,7 @@ from fractions import Fraction as Fr
 from . import core, si, sysgen, trajgen, engine_build, child
 from .core import g_float, g_list, g_nat, g_bool
 
-IMPORTS = "Sampling Lifecycle AcceptC10"
+IMPORTS = "Sampling Lifecycle Simulate AcceptC10"
 POL = {"on_t_sample": "OnTSample", "on_iteration": "OnIteration", "on_interval": "OnInterval", "no_sampling": "NoSampling"}
 
 # a small pool of scripts over the same two-cell, one-species system (same state size, so that two engine objects
@@ -372,6 +372,98 @@ def build_items(hists, run=None, sanitize=False):
     return items
 
 
+# ------------------------------------------------------------------------------ simulate_script: the calls it makes
+class _Recorder:
+    """stands between simulate_script and a real engine: every call and what it returned is logged"""
+
+    def __init__(self, eng, log):
+        self._e, self._log = eng, log
+
+    def setup(self, script):
+        r = self._e.setup(script)
+        self._log.append([0, ["unit"]])
+        return r
+
+    def run(self, breathe_dt):
+        r = self._e.run(breathe_dt)
+        self._log.append([2, ["bool", bool(r)]])
+        return r
+
+    def get_progress(self):
+        v = self._e.get_progress()
+        self._log.append([5, ["num", float(v)]])
+        return v
+
+    def get_output(self):
+        tr = self._e.get_output()
+        self._log.append([7, ["out", [float(v) for v in tr.t.value], len(tr.data.value)]])
+        return tr
+
+    def finalize(self):
+        self._e.finalize()
+        self._log.append([8, ["unit"]])
+
+    def __getattr__(self, name):            # get_option, description ...: passed through, not part of the lifecycle
+        return getattr(self._e, name)
+
+
+def make_simulate_case(rng):
+    n = rng.randint(1, 4)
+    return {"invocations": [[rng.choice("AB"), rng.randrange(len(SCRIPTS)), rng.random() < 0.4] for _ in range(n)], "sanitize": False}
+
+
+def observe_simulate(c):
+    import contextlib
+    import io
+    import strengths
+    import importlib
+    sim = importlib.import_module("strengths.simulate")      # `strengths.simulate` the attribute is the function of that name
+    objs, log, outs = {}, [], []
+    for o, k, pr in c["invocations"]:
+        sc = SCRIPTS[k]
+        if (o, sc["engine"]) not in objs:
+            objs[(o, sc["engine"])] = engine_build.engine(sc["engine"], sanitize=c.get("sanitize", False))
+        n0 = len(log)
+        with contextlib.redirect_stdout(io.StringIO()):
+            tr = sim.simulate_script(build_script(strengths, sc), _Recorder(objs[(o, sc["engine"])], log), print_progress=pr)
+        # what the caller gets is what get_output returned during the call
+        fetched = [e[1] for e in log[n0:] if e[0] == 7]
+        outs.append(bool(len(fetched) == 1 and fetched[0][1] == [float(v) for v in tr.t.value] and fetched[0][2] == len(tr.data.value)))
+    res = {"log": log, "returned_fetched_output": outs}
+    if len(set(o for o, _, _ in c["invocations"])) > 1:
+        res["_retire"] = True
+    return res
+
+
+def emit_simulate(c, o):
+    lets = " ".join("let sc%d := %s in" % (i, g_script(sc)) for i, sc in enumerate(SCRIPTS))
+    gc = "(%s %s)" % (lets, g_list(["(%s, sc%d, %s)" % (ob, k, g_bool(pr)) for ob, k, pr in c["invocations"]]))
+    go = g_list(["(%s, %s)" % (g_nat(t), g_outcome(x)) for t, x in o.get("log", [])])
+    return gc, go
+
+
+def oracle_simulate(it):
+    c, o = it["case"], it["obs"]
+    name = "a sequence of simulate calls on one or two engines: every call returns, and returns the output it fetched"
+    if "timeout" in o or "crash" in o or "error" in o:
+        return False, name + " [%s]" % ({k: o[k] for k in ("timeout", "crash", "error") if k in o},)
+    if not all(o["returned_fetched_output"]):
+        return False, name + " [a call returned something else than the output it fetched]"
+    return None, name          # the outcomes themselves are judged against the lifecycle specification in Coq
+
+
+def simulate_items(cases, sanitize=False):
+    engine_build.build(sanitize)
+    for c in cases:
+        c["sanitize"] = sanitize
+    obs = child.map_children("c10", "observe_simulate", cases, timeout=30, env=(engine_build.san_env() if sanitize else None), confirm=True)
+    items = []
+    for c, o in zip(cases, obs):
+        gc, go = emit_simulate(c, o)
+        items.append({"case": c, "obs": o, "gcase": gc, "gobs": go, "nontrivial": True})
+    return items
+
+
 def histories(rng, tier):
     L = 4 if tier == "quick" else 5
     hs = enumerate_one(L)
@@ -400,9 +492,22 @@ def check(run):
                  "fractional / integral / above 100) driven to completion: set-up and every iterate must return within 12 s, fixed-step runs "
                  "must complete after exactly floor(t_max/dt)+1 iterations and stay complete" % nt)
     core.decide(run, titems, IMPORTS, "accept_C10_run", oracle_term, known=known_term, shard=400)
+    ns = 150 if run.tier == "quick" else 2500
+    sitems = simulate_items([make_simulate_case(rng) for _ in range(ns)])
+    for it in sitems:
+        inv = it["case"]["invocations"]
+        run.count("simulate:calls:%d:objects:%d" % (len(inv), len(set(o for o, _, _ in inv))))
+        run.count("simulate:progress_printed", sum(1 for _, _, pr in inv if pr))
+    run.rule += ("; and %d sequences of 1-4 simulate_script calls on one or two engine objects (five scripts, with and without progress "
+                 "printing): the calls simulate_script makes on its engine and what each returned, recorded by a proxy, against the "
+                 "specification run of the modelled history (Model/Simulate.v)" % ns)
+    core.decide(run, sitems, IMPORTS, "accept_C10_simulate", oracle_simulate, shard=200)
 
 
 def replay(run, payload):
+    if payload["correspondence"] == "accept_C10_simulate":
+        core.decide(run, simulate_items([payload["case"]]), IMPORTS, "accept_C10_simulate", oracle_simulate)
+        return
     if payload["correspondence"] == "accept_C10_run":
         sysgen.POOLS["space"] = ["cm", "mm", "dmm", "cmm", "µm", "nm", "dm"]
         core.decide(run, term_items([payload["case"]]), IMPORTS, "accept_C10_run", oracle_term, known=known_term)
